@@ -15,7 +15,7 @@ ASSUMPTIONS = ['no symlinks, no concurrent file changes, UTF-8 file names, case-
 
 NAMES = ['a.txt', 'b', 'c.tar.gz', 'index.html', 'index.htm', 'sp ace.css', 'é.js', 'x.png', '.hidden', 'dot.', 'UP.JSON', 'q%41.txt',
          'p+q.html', 'n.woff2']
-DIRS = ['sub', 'deep', 'a b', 'ü', 'd.d']
+DIRS = ['sub', 'deep', 'a b', 'ü', 'd.d', 'static', 'st']
 SEGS = ['.', '..', '...', '', '%2e%2e', '%2E.', '.%2e', '%2f', '%5c', '%00', '%252e', '%c0%ae', '..%2f', '%2e', '....', ':', 'C:',
         '%3a', '\\..', '%ff']
 MIME = {'css': 'text/css', 'html': 'text/html', 'htm': 'text/html', 'js': 'text/javascript', 'mjs': 'text/javascript',
@@ -97,6 +97,14 @@ def run(ctx):
             add('directory', '/st/*', '/st/' + enc, ('file', f, clean))
             if '%' not in f:
                 add('serve_as_file_path', '/*', '/' + f, ('file', f, clean))
+            # the route prefix is removed once: a file below a directory named like the prefix is still found
+            seg0 = f.split('/')[0]
+            if '/' in f and urllib.parse.quote(seg0, safe='') == seg0 and '*' not in seg0:
+                for rt in ('/' + seg0 + '/*', '/' + seg0 + '*'):
+                    add('serve_dir', rt, '/' + seg0 + '/' + enc, ('file', f, clean))
+                    add('directory', rt, '/' + seg0 + '/' + enc, ('file', f, clean))
+                add('serve_dir', '/' + seg0 + '/*', '/' + seg0 + '//' + enc, ('adv', None, None))
+                add('directory', '/' + seg0 + '/*', '/' + seg0 + '//' + enc, ('adv', None, None))
         for d in list(dirs) + ['']:
             enc = '/'.join(urllib.parse.quote(seg, safe='') for seg in d.split('/')) if d else ''
             if d:
